@@ -268,10 +268,11 @@ class Gen:
     def op_dele(self):
         r = self.r
         c = r.random()
-        if self.interleaved:
-            return
         if c < 0.7 or self.inside:
             rd = self.read_props() if self.inside else set()
+            if self.interleaved:
+                # writing observers exist while the network grows: a property they assign, or whose binding they reset, stays alive
+                rd = rd | set(self.wtargets) | {q for _, q in self.robs}
             p = self.pick(lambda p, d: p not in rd)
             if p is not None and len(self.props) > 2:
                 self.emit(f"pdel {p}")
